@@ -285,7 +285,7 @@ def run(ctx):
                     continue
                 cases.append(("int", op, a, b))
     n_boundary = len(cases)
-    for _ in range(ctx.scale(4000, 200000)):
+    for _ in range(ctx.scale(4000, 60000)):
         op = rng.choice(INT_OPS + UPD_OPS)
         a, b = random_pair(rng, op)
         cases.append(("int", op, a, b))
